@@ -136,11 +136,13 @@ fn evaluate_source(
                         for pair in inner_pairs_clone {
                             match pair.as_rule() {
                                 Rule::identifier => {
+                                    // `output x`: x evaluates to the value to record (a
+                                    // binding, or a name such as `constants` or a built-in)
                                     let identifier = pair.as_str();
-                                    if let Some(value) = bindings.get(identifier) {
+                                    if let Ok(value) = &result {
                                         // Validate that the value is portable
                                         if let Err(e) = validate_portable_value(
-                                            &value,
+                                            value,
                                             &heap.borrow(),
                                             bindings,
                                         ) {
@@ -634,12 +636,12 @@ fn run() -> ! {
                             for pair in inner_pairs_clone {
                                 match pair.as_rule() {
                                     Rule::identifier => {
-                                        // output x - reference existing binding
+                                        // output x - record the value x evaluates to
                                         let identifier = pair.as_str();
-                                        if let Some(value) = bindings.get(identifier) {
+                                        if let Ok(value) = &result {
                                             // Validate that the value is portable
                                             if let Err(e) = validate_portable_value(
-                                                &value,
+                                                value,
                                                 &heap.borrow(),
                                                 &bindings,
                                             ) {
